@@ -66,6 +66,8 @@ PRELUDE = (' '.join('assign {} {}'.format(k, lit(v) if not isinstance(v, str)
            + ' define shout with x begin printf "<{x}>" return { x * 2 } end'
            + ' define note with x begin printf "note" return x end'
            + ' define say with x begin print "say" print x return { x + 1 } end'
+           + ' define brk with x begin println return x end'
+           + ' define ln with x begin println x return { x + 2 } end'
            + ' assign yes { 1 < 2 } assign no { 2 < 1 } ')
 VARS_ALL = dict(VARS, yes=True, no=False)
 DEVICES = [dict(label='Top', group='G', location='P'),
@@ -88,7 +90,15 @@ SIDE = []      # texts written by calls while the current value was evaluated
 def value(rng):
     """returns (script text of an rvalue, python value); output written by
     routines called on the way is appended to SIDE"""
-    k = rng.randrange(16)
+    k = rng.randrange(18)
+    if k == 16:
+        x = rng.choice([8, 11])
+        SIDE.append(('newline', ''))
+        return '[ brk {} ]'.format(x), x
+    if k == 17:
+        x = rng.choice([20, 30])
+        SIDE.append(('println', str(x)))
+        return '[ ln {} ]'.format(x), x + 2
     if k == 13:
         x = rng.choice([3, 4, 10])
         SIDE.append(('printf', '<{}>'.format(x)))
@@ -237,7 +247,11 @@ def build(rng):
     def side():
         nonlocal pending
         for kind, text in SIDE:
-            emit(text)
+            if kind == 'newline':
+                segs[-1] += '\n'
+                pending = False
+                continue
+            emit(text, newline=kind == 'println')
             if kind == 'printf' and text.endswith('\n'):
                 pending = 'opt'
         SIDE.clear()
